@@ -13,6 +13,7 @@ import (
 
 	"github.com/oasisprotocol/curve25519-voi/curve"
 	"github.com/oasisprotocol/curve25519-voi/curve/scalar"
+	"github.com/oasisprotocol/curve25519-voi/zzverif/entropy"
 	"github.com/oasisprotocol/curve25519-voi/zzverif/gen"
 	"github.com/oasisprotocol/curve25519-voi/zzverif/gx"
 	"github.com/oasisprotocol/curve25519-voi/zzverif/hist"
@@ -379,7 +380,16 @@ func sString(v *big.Int, top uint) []byte {
 	return ref.LE32(w)
 }
 
+// entropyCase: the entropy-consuming APIs of this property behind differently behaving readers (package entropy).
+func entropyCase(r *mon.Run, c Case) {
+	entropy.Check(r, "C11", r.Rng(c.Stream), func(sig, what string) { r.Violate(sig, what, c) })
+}
+
 func runCase(r *mon.Run, c Case) {
+	if c.Kind == "entropy" {
+		entropyCase(r, c)
+		return
+	}
 	x := &ctx{r: r, c: c, h: hist.New(r.Rng(c.Stream + "/receivers"))}
 	defer func() { r.HistN("receivers-with-a-past", x.h.Uses) }()
 	rng := r.Rng(c.Stream)
@@ -464,6 +474,9 @@ func main() {
 	r.Sample("valid-encoding", mon.Hex(gEnc))
 	if r.HistGet("decode/accept=true/bit255=false") == 0 {
 		r.Inconclusive("no accepted encoding observed")
+	}
+	for i := 0; i < r.Pick(6, 60); i++ {
+		entropyCase(r, Case{Kind: "entropy", Stream: fmt.Sprintf("c11/entropy/%d", i)})
 	}
 	r.Finish()
 }
